@@ -50,6 +50,9 @@ def run_cvc5(smt2, timeout_s):
 def solve_one(ob, timeout_ms=10000, use_cvc5=True, recheck_cvc5=False):
     """-> dict(name, status, backend, time_s, model)"""
     t0 = time.time()
+    if solve_without_lambdas(ob["pc"], ob["goal"], timeout_ms=min(timeout_ms, FIRST_TRY_MS)) == "unsat":
+        return {"name": ob["name"], "status": "unsat", "backend": "z3(hypotheses with lambda terms dropped)", "time_s": round(time.time() - t0, 4),
+                "model": None, "meta": ob.get("meta", {})}
     s = z3.Solver()
     s.set("timeout", min(timeout_ms, FIRST_TRY_MS))
     s.add(*ob["pc"])
@@ -64,8 +67,6 @@ def solve_one(ob, timeout_ms=10000, use_cvc5=True, recheck_cvc5=False):
     elif r == z3.unknown:
         if solve_relaxed(ob["pc"], ob["goal"], timeout_ms=min(timeout_ms, 8000)) == "unsat":
             status, backend = "unsat", "z3-nlsat(real relaxation)"
-        elif solve_without_lambdas(ob["pc"], ob["goal"], timeout_ms=min(timeout_ms, FIRST_TRY_MS)) == "unsat":
-            status, backend = "unsat", "z3(hypotheses with lambda terms dropped)"
         elif use_cvc5:
             c = run_cvc5(smt2_of(ob["pc"], ob["goal"]), max(5, timeout_ms / 1000))
             if c in ("unsat", "sat"):
